@@ -242,6 +242,16 @@ pub trait HamDyn {
     fn init_parts(&mut self, math: &mut SM, x: &[f64]) -> Result<PointParts, String>;
 
     fn set_step_size(&mut self, eps: f64);
+
+    /// Run the real initial step size search (`stepsize::Strategy::init`) with a scripted momentum;
+    /// returns the step size it leaves in the hamiltonian and the number of density evaluations.
+    fn stepsize_search(
+        &mut self,
+        math: &mut SM,
+        settings: nuts_rs::StepSizeSettings,
+        position: &[f64],
+        momentum: &[f64],
+    ) -> Result<(f64, u64), String>;
 }
 
 impl<T: Transformation<SM>> HamDyn for TransformedHamiltonian<SM, T> {
@@ -321,6 +331,24 @@ impl<T: Transformation<SM>> HamDyn for TransformedHamiltonian<SM, T> {
 
     fn set_step_size(&mut self, eps: f64) {
         *self.step_size_mut() = eps;
+    }
+
+    fn stepsize_search(
+        &mut self,
+        math: &mut SM,
+        settings: nuts_rs::StepSizeSettings,
+        position: &[f64],
+        momentum: &[f64],
+    ) -> Result<(f64, u64), String> {
+        let mut strategy = nuts_rs::verif::StepSizeStrategy::new(settings);
+        let mut opts = NutsOptions::default();
+        let mut rng = ScriptRng::new(vec![]);
+        math.fixed_momentum = Some(momentum.to_vec());
+        let e0 = math.inner_evals();
+        let r = strategy.init(math, &mut opts, self, position, &mut rng);
+        math.fixed_momentum = None;
+        r.map_err(|e| format!("step size search failed: {e}"))?;
+        Ok((self.step_size(), math.inner_evals() - e0))
     }
 }
 
